@@ -60,6 +60,9 @@ type memRig struct {
 	// beforeMint, when set, runs after the valid mint of the day has been built and signed and before it is
 	// finalized (forbidden variants of it are tried here)
 	beforeMint func(tx *common.VersionedTransaction, elected *memIdent)
+	// proposalShare: share of forbidden variants (and of valid consensus operations) that also go through
+	// the proposal path, i.e. a real signing round run by the simulator for the chain's member
+	proposalShare float64
 	// certOverride, when set, certifies the next candidate instead of certify (forged certificates)
 	certOverride func(s *common.Snapshot) *crypto.CosiSignature
 	seq       int
@@ -368,6 +371,18 @@ func (m *memRig) placeOn(owner crypto.Hash, tx *common.VersionedTransaction, exp
 		}
 	} else {
 		return m.candidate(owner, []*common.VersionedTransaction{tx}, 0)
+	}
+	if leader := m.identOf(owner); leader != nil && m.proposalShare > 0 && m.rng.Chance(m.proposalShare) && isConsensusClass(tx) {
+		// the valid operation takes the proposal path: real nodes sign it in a real round
+		s := copySnapshot(it.snap)
+		s.Signature = nil
+		if b := m.proposeViaCosi(leader, s, []*common.VersionedTransaction{tx}, 3*time.Second); b != nil {
+			m.r.out.Probes["valid_operation_proposed_via_signing_round"]++
+			if b.final != nil {
+				m.r.out.Probes["valid_operation_certified_by_real_nodes"]++
+				it.snap = b.final
+			}
+		}
 	}
 	m.send(it)
 	return it
